@@ -31,6 +31,7 @@ to turn it on for a production system.
 
 
 import logging
+import re
 logger = logging.getLogger('spyne.protocol.xml')
 logger_invalid = logging.getLogger('spyne.protocol.xml.invalid')
 
@@ -112,6 +113,23 @@ def _strip_customizations(cls):
         cls = cls.__bases__[0]
 
     return cls
+
+
+_XML_ILLEGAL_RE = re.compile(
+              u'[\x00-\x08\x0b\x0c\x0e-\x1f\ud800-\udfff\ufffe\uffff]')
+
+
+def _xml_safe_text(s):
+    """Fault messages quote request data, which, coming from a non-xml input
+    protocol, may hold characters xml can't carry. They are spelled out."""
+
+    if s is None:
+        return s
+
+    if not isinstance(s, string_types):
+        s = text_type(s)
+
+    return _XML_ILLEGAL_RE.sub(lambda m: u'\\u%04x' % ord(m.group()), s)
 
 
 def _gen_tagname(ns, name):
@@ -1025,8 +1043,8 @@ class XmlDocument(SubXmlBase):
     def fault_to_parent(self, ctx, cls, inst, parent, ns, *args, **kwargs):
         subelts = [
             E("faultcode", '%s:%s' % (self.soap_env, inst.faultcode)),
-            E("faultstring", inst.faultstring),
-            E("faultactor", inst.faultactor),
+            E("faultstring", _xml_safe_text(inst.faultstring)),
+            E("faultactor", _xml_safe_text(inst.faultactor)),
         ]
 
         return self._fault_to_parent_impl(ctx, cls, inst, parent, ns, subelts)
